@@ -513,14 +513,14 @@ class ValidateSameCyclePairs(Kernel):
         self.np = z3.Int("n_pairs")
         ctx.assume(self.np >= 0)
         self.cap = z3.Array("pair_capture", I_, I_)
-        self.src = z3.Array("pair_source", I_, I_)
+        self.pair_src = z3.Array("pair_source", I_, I_)
         ctx.store[(impl.oid, "same_cycle_pairs")] = Vec(ctx, "pairs", length=self.np, elem=lambda i: PairObj(self, i))
         self.index_of = MapKV(ctx, "index_of")
         return th, {"index_of": self.index_of}
 
     def ok(self, i):
         has, val = self.index_of.has(self.I.ctx), self.index_of.val(self.I.ctx)
-        c, s = self.cap[i], self.src[i]
+        c, s = self.cap[i], self.pair_src[i]
         return z3.And(has[c], has[s], val[c] < val[s])
 
     def inv(self, I, ctx):
@@ -560,7 +560,7 @@ class PairObj(Obj):
         if name == "capture":
             return self.k.cap[self.idx]
         if name == "source":
-            return self.k.src[self.idx]
+            return self.k.pair_src[self.idx]
         raise Gap("pair member %s" % name)
 
 
@@ -626,3 +626,192 @@ def _scalars_opt(self, I, args, n):
 
 BuilderObj.m_scalars = _scalars_opt
 KERNELS += [AddNodeDeferred]
+
+
+# ------------------------------------------------------------------ source_key_for: the interning key is complete
+#
+# Two wirings may share one node only when their keys are equal (InstanceKey::operator==, above), so the key of an input's
+# source must carry every attribute that distinguishes two ports.  source_key_for is proved to copy, per source kind, all
+# of them; for a structural source the children are keyed by the recursive call in order (structural induction: the
+# recursive call's result is complete for the child by the induction hypothesis, stated as its contract).
+
+SK_FIELDS = ["kind", "peered_output_kind", "peered_node", "peered_path", "schema", "structural_children", "boundary_arg",
+             "boundary_path", "captured_boundary", "delayed_state", "delayed_path"]
+SK_DEFAULT = {"kind": -100, "peered_output_kind": -101, "peered_node": 0, "peered_path": -103, "schema": 0,
+              "boundary_arg": -1, "boundary_path": -106, "captured_boundary": False, "delayed_state": 0, "delayed_path": -109}
+
+
+class ChildKeys(Obj):
+    """std::vector<SourceKey>: the child indices whose keys were appended, in order"""
+    cls = "std::vector<SourceKey>"
+
+    def __init__(self, ctx):
+        Obj.__init__(self, name="structural_children")
+        ctx.store[(self.oid, "len")] = z3.IntVal(0)
+        ctx.store[(self.oid, "data")] = z3.K(I_, z3.IntVal(-1))
+
+    def m_reserve(self, I, args, n):
+        return VOID
+
+    def m_push_back(self, I, args, n):
+        ctx = I.ctx
+        v = ctx.rv(args[0])
+        if not isinstance(v, SKey) or v.of_child is None:
+            raise Gap("a key that is not the result of source_key_for(child) was appended")
+        L = ctx.store[(self.oid, "len")]
+        ctx.write(Loc((self.oid, "data")), z3.Store(ctx.store[(self.oid, "data")], L, v.of_child))
+        ctx.write(Loc((self.oid, "len")), L + 1)
+        return VOID
+
+
+class SKey(Obj):
+    cls = "SourceKey"
+
+    def __init__(self, ctx, vals, of_child=None):
+        Obj.__init__(self, name="source_key")
+        self.of_child = of_child
+        for f in SK_FIELDS:
+            if f == "structural_children":
+                ctx.store[(self.oid, f)] = ChildKeys(ctx)
+            else:
+                v = vals.get(f)
+                if v is None:
+                    d = SK_DEFAULT[f]
+                    v = z3.BoolVal(d) if isinstance(d, bool) else z3.IntVal(d)
+                ctx.store[(self.oid, f)] = v
+
+
+class PortObj6(Obj):
+    """WiringPortRef with symbolic attributes; child ports are identified by their index"""
+    cls = "WiringPortRef"
+
+    def __init__(self, k, child=None):
+        Obj.__init__(self, name="source" if child is None else "child_port")
+        self.k, self.child = k, child
+
+    def member(self, ctx, name, node):
+        if name == "schema":
+            return self.k.attr("schema") if self.child is None else z3.Int("child_schema")
+        raise Gap("port member %s" % name)
+
+    def _m(self, nm):
+        if self.child is not None:
+            raise Gap("attribute of a child port read outside the recursive call")
+        return self.k.attr(nm)
+
+    def m_source_kind(self, I, a, n): return self._m("kind")
+    def m_is_peered_source(self, I, a, n): return self._m("kind") == 1
+    def m_is_structural_source(self, I, a, n): return self._m("kind") == 2
+    def m_is_boundary_source(self, I, a, n): return self._m("kind") == 3
+    def m_is_delayed_source(self, I, a, n): return self._m("kind") == 4
+    def m_peered_node(self, I, a, n): return self._m("peered_node")
+    def m_peered_path(self, I, a, n): return self._m("peered_path")
+    def m_peered_output_kind(self, I, a, n): return self._m("peered_output_kind")
+    def m_is_captured_boundary_source(self, I, a, n): return self.k.captured
+    def m_boundary_capture_index(self, I, a, n): return self._m("capture_index")
+    def m_boundary_arg_index(self, I, a, n): return self._m("arg_index")
+    def m_boundary_path(self, I, a, n): return self._m("boundary_path")
+    def m_delayed_path(self, I, a, n): return self._m("delayed_path")
+
+    def m_delayed_state(self, I, a, n):
+        o = Obj("shared_ptr", "delayed_state")
+        o.m_get = lambda I_, a_, n_: self._m("delayed_state")
+        return o
+
+    def m_structural_children(self, I, a, n):
+        k = self.k
+        return Vec(I.ctx, "children", length=k.nchildren, elem=lambda j: PortObj6(k, child=j))
+
+
+class SourceKeyFor(Kernel):
+    tu = TU
+    name = "graph_wiring.cpp:source_key_for"
+    fn_name = "source_key_for"
+    filter = "source_key_for"
+    property_ids = ("C06",)
+    scope = {"lo": 0, "hi": 3}
+    title = "source_key_for: the interning key of a source carries every attribute that distinguishes two ports"
+
+    def attr(self, nm):
+        return z3.Int("port_" + nm)
+
+    def setup(self, I):
+        ctx = I.ctx
+        self.nchildren = z3.Int("n_children")
+        self.captured = z3.Bool("port_is_captured_boundary")
+        ctx.assume(self.nchildren >= 0)
+        ctx.assume(z3.And(self.attr("kind") >= 0, self.attr("kind") <= 4))
+        return None, {"source": PortObj6(self)}
+
+    def ctor_handler(self, qt, node):
+        if qt.endswith("SourceKey") and "vector" not in qt:
+            def mk(I, args, n):
+                a = [I.ctx.rv(x) if not (x is None) else None for x in args]
+                if len(a) == 1 and isinstance(a[0], SKey):
+                    return a[0]
+                vals = {}
+                from cxxvc.interp import DEFAULT_ARG
+                for f, v in zip(SK_FIELDS, a):
+                    if v is DEFAULT_ARG or isinstance(v, Obj):
+                        continue
+                    vals[f] = v
+                return SKey(I.ctx, vals)
+            return mk
+        return Kernel.ctor_handler(self, qt, node)
+
+    def function_handler(self, name, node, callee_node):
+        if name == "source_key_for":
+            def rec(I, args, n):
+                p = I.ctx.rv(args[0])
+                if not isinstance(p, PortObj6) or p.child is None:
+                    raise Gap("recursive call on something that is not a child port")
+                return SKey(I.ctx, {}, of_child=p.child)
+            return rec
+        return Kernel.function_handler(self, name, node, callee_node)
+
+    def key_local(self, I):
+        return self.local_obj(I, "key")
+
+    def inv(self, I, ctx):
+        key = self.key_local(I)
+        sc = ctx.store[(key.oid, "structural_children")]
+        L, D = ctx.store[(sc.oid, "len")], ctx.store[(sc.oid, "data")]
+        pos = self.range_pos(I)
+        yield "children-keyed-so-far,in-order", z3.And(L == pos, pos >= 0, pos <= self.nchildren,
+                                                       z3.ForAll([qk], z3.Implies(z3.And(qk >= 0, qk < L), D[qk] == qk)))
+
+    def frame(self, I, ctx):
+        key = self.key_local(I)
+        sc = ctx.store[(key.oid, "structural_children")]
+        return [Loc((sc.oid, "len")), Loc((sc.oid, "data"))]
+
+    @property
+    def loops(self):
+        return {0: LoopSpec(self.inv, self.frame)}
+
+    def post(self, I, ret):
+        ctx = I.ctx
+        if not isinstance(ret, SKey):
+            raise Gap("source_key_for did not return a SourceKey")
+        f = lambda nm: ctx.store[(ret.oid, nm)]
+        kind = self.attr("kind")
+        sc = f("structural_children")
+        L, D = ctx.store[(sc.oid, "len")], ctx.store[(sc.oid, "data")]
+        ctx.oblige("ensures.kind-and-schema-in-the-key[C06 nodes are shared only when node type, arguments and inputs are identical]",
+                   z3.And(f("kind") == kind, f("schema") == self.attr("schema")), kind="post-normal")
+        ctx.oblige("ensures.peered-source:producer,output-path-and-output-kind-in-the-key[C06 different inputs are never shared]",
+                   z3.Implies(kind == 1, z3.And(f("peered_node") == self.attr("peered_node"), f("peered_path") == self.attr("peered_path"),
+                                                f("peered_output_kind") == self.attr("peered_output_kind"))), kind="post-normal")
+        ctx.oblige("ensures.structural-source:every-child-keyed-once,in-order[C06]",
+                   z3.Implies(kind == 2, z3.And(L == self.nchildren, z3.ForAll([qk], z3.Implies(z3.And(qk >= 0, qk < L), D[qk] == qk)))),
+                   kind="post-normal")
+        ctx.oblige("ensures.boundary-source:argument,path-and-capture-flag-in-the-key[C06]",
+                   z3.Implies(kind == 3, z3.And(f("boundary_arg") == z3.If(self.captured, self.attr("capture_index"), self.attr("arg_index")),
+                                                f("boundary_path") == self.attr("boundary_path"), f("captured_boundary") == self.captured)),
+                   kind="post-normal")
+        ctx.oblige("ensures.delayed-source:state-and-path-in-the-key[C06]",
+                   z3.Implies(kind == 4, z3.And(f("delayed_state") == self.attr("delayed_state"), f("delayed_path") == self.attr("delayed_path"))),
+                   kind="post-normal")
+
+
+KERNELS += [SourceKeyFor]
